@@ -91,7 +91,12 @@ func genCase(t *rapid.T) Case {
 			}
 			c.Ops = append(c.Ops, op("step"))
 		}
-		switch rapid.IntRange(0, 7).Draw(t, "end") {
+		switch rapid.IntRange(0, 9).Draw(t, "end") {
+		case 8:
+			// the round index times out and the operator pauses / resumes mining before anything is voted in the new one
+			c.Ops = append(c.Ops, op("nextindex"), op("resume"))
+		case 9:
+			c.Ops = append(c.Ops, op("resume"))
 		case 0, 1, 2:
 			c.Ops = append(c.Ops, op("nextindex"))
 		case 3:
@@ -449,6 +454,13 @@ func runCase(c Case) kit.Result {
 			index += 1 + uint32(op.A%2)
 			step = 0
 			desc = fmt.Sprintf("next round index: context (%d,%d) step 0", round, index)
+			fn = func() { voter.VerifUpdateContext(round, index, step, isCert(round)) }
+		case "resume":
+			// Server.Pause + Server.Resume (or a late ContextChangeEvent): the SAME voter object and vote
+			// database re-enter the current round at round index 1 (Resume -> StartNewRound(true) -> clearData)
+			index, step = 1, 0
+			labels["resume-same-process"] = true
+			desc = fmt.Sprintf("pause/resume: context back to (%d,%d) step 0, same process", round, index)
 			fn = func() { voter.VerifUpdateContext(round, index, step, isCert(round)) }
 		case "newround":
 			round++
